@@ -287,10 +287,10 @@ def judge_e2e(case):
 
 
 SUBS = [
-    Sub("propagation", judge_propagation, prop_case(), quick=120, thorough=3000,
+    Sub("propagation", judge_propagation, prop_case(), quick=120, thorough=24000,
         rule="ssi.SSI_fast(calc_unc, T) + ssi.SSI_poles(calc_unc): Fn_cov[j, n] = sum over factor columns of (directional derivative of fn_j)^2, derivatives by central differences"),
-    Sub("factor", judge_factor, factor_case(), quick=200, thorough=6000,
+    Sub("factor", judge_factor, factor_case(), quick=200, thorough=48000,
         rule="ssi.build_hank('cov_mm', calc_unc=True, nb): T[:, k] = vec_F(H_k - H)/sqrt(nb(nb-1)) with block-wise estimates H_k normalised like H"),
-    Sub("end_to_end", judge_e2e, e2e_case(), quick=80, thorough=1500,
+    Sub("end_to_end", judge_e2e, e2e_case(), quick=80, thorough=12000,
         rule="SSIcov(calc_unc=True) through SingleSetup: Fn_poles_cov equals the propagation of the harness's block-wise factor"),
 ]
